@@ -315,7 +315,8 @@ where
         let ty = PhantomData::<Ty>::from_deserialized(input.edge_property)?;
         let nodes = input.nodes;
         let edges = input.edges;
-        if nodes.len() >= <Ix as IndexType>::max().index() {
+        // an index type admits `max()` nodes (indices `0..max()`, `max()` is the end marker)
+        if nodes.len() > <Ix as IndexType>::max().index() {
             Err(invalid_length_err::<Ix, _>("node", nodes.len()))?
         }
 
